@@ -24,7 +24,9 @@ SKIP = {
 def item_src(it, ann, spelling):
     a = ANN[ann] if it["name"] == "Subject" else ("#[typeshare]\n" if it["annotated"] else "")
     sk = lambda m: "".join(f"    {x}\n" for x in SKIP[spelling]) if m["skipped"] else ""
-    k, n = it["kind"], it["name"]
+    k, n = it["kind"], it.get("rust_name", it["name"])
+    if it.get("rename"):
+        a += f'#[serde(rename = "{it["rename"]}")]\n'
     if k == "struct":
         body = "".join(f"{sk(m)}    pub {m['name']}: u32,\n" for m in it["members"])
         return f"{a}pub struct {n} {{\n{body}}}\n"
@@ -73,6 +75,8 @@ def source(case, items):
     parts = []
     for it in items:
         s = item_src(it, case["annotation"], case["spelling"])
+        if it.get("rust_name"):          # the twin: same Rust identifier, in a module of its own
+            s = "pub mod v2 {\n" + "".join("    " + l + "\n" for l in s.splitlines()) + "}\n"
         parts.append(nest(s, case["nesting"]) if it["name"] == "Subject" else s)
     return "\n".join(parts)
 
@@ -166,6 +170,8 @@ def run_mode(chk, programs, results, srcs, events, meta):
         has_const = any(it["kind"] == "const" and it["annotated"] for it in items)
         for lang in common.LANGS:
             r = per[lang]
+            if lang == "go" and case.get("twin", "none") != "none" and case["kind"] != "struct":
+                continue      # MC_C03!GoTwinDeferred: Go defines a renamed enum under its original name (C09's listed finding)
             if r["status"] in ("panic", "abort", "hang"):
                 continue      # C07 (write_const todo!() in Kotlin/Swift is a known finding there)
             if r["status"] == "unreadable":
